@@ -144,11 +144,38 @@ var secretMark = []byte("ZQS") // every secret value contains it; nothing else d
 // kubeconfig); lower case too, host names and URLs get lowered on their way into error texts
 var fragMark = []byte("zqf")
 
+// indexSecretMark finds the marker as part of a VALUE.  Every generated secret value is the marker
+// followed by at least ten letters or digits; the daemon's own unit IDs are eight random letters and
+// digits and contain the three marker letters by chance once in some ten thousand IDs (it happened in a
+// thorough run of 20 000 cases: "Work unit created with ID 8hDVNZQS").  An occurrence inside a run of
+// letters and digits of at most eight characters is therefore not a secret.
+func indexSecretMark(b []byte) int {
+	isAN := func(c byte) bool { return c >= '0' && c <= '9' || c >= 'a' && c <= 'z' || c >= 'A' && c <= 'Z' }
+	for from := 0; ; {
+		k := bytes.Index(b[from:], secretMark)
+		if k < 0 {
+			return -1
+		}
+		i := from + k
+		lo, hi := i, i+len(secretMark)
+		for lo > 0 && isAN(b[lo-1]) {
+			lo--
+		}
+		for hi < len(b) && isAN(b[hi]) {
+			hi++
+		}
+		if hi-lo > 8 {
+			return i
+		}
+		from = i + 1
+	}
+}
+
 func (t *Tap) feed(where string, b []byte) {
 	t.mu.Lock()
 	defer t.mu.Unlock()
 	t.total += len(b)
-	if i := bytes.Index(b, secretMark); i >= 0 {
+	if i := indexSecretMark(b); i >= 0 {
 		end := i + 16
 		if end > len(b) {
 			end = len(b)
